@@ -5,7 +5,7 @@ PROPS = {
         technique='runtime monitoring: recursive-baseline oracle over the public Node API on corpus + mutated trees; thorough tier repeats the workload per language in an AddressSanitizer build',
         level_text=('Every node of ~0.6 M (quick) / several M (thorough) nodes of real and damaged trees in 23 languages is checked against an '
                     'independent recursive baseline; held on the executions observed, nothing is proved.'),
-        level_note='Trusted: children() as baseline, tree-sitter parse itself, the harness line/column routine. Two tree-sitter cursor defects are known findings.',
+        level_note='Trusted: children() as baseline, tree-sitter parse itself, the harness line/column routine. The tree-sitter cursor defects found here (prev_all) were repaired in /repo (876cff2); under parents with more than 200 children the sibling chains are walked for the ends and a regular sample only (work limit).',
         rule=('every corpus file of 23 languages plus token-level mutants (deleted/duplicated/swapped tokens, multi-byte '
               'insertions, CRLF, truncation) and degenerate sources; every node is checked against a recursive baseline built '
               'from children() only (parent, child(i), nesting, ancestors, next/prev, next_all/prev_all incl. the root, '
@@ -81,7 +81,7 @@ PROPS = {
         floor={'quick': 500000, 'thorough': 10000000},
         level_text='Millions of (rule, node) evaluations per run against an independent evaluator over parent()/children(); disagreements are shrunk and attributed; held on the rules and trees executed.',
         level_note=('Trusted: refsem/rule_bool.rs (written from the rule reference and the schema descriptions), the regex crate, Pattern atoms (judged by C02/C03), tree-sitter child_by_field_name. '
-                    'field only with stopBy neighbor and only when <= 1 child carries the field; a per-rule work limit (400 ms) stops cubic rule/tree combinations (counted, no verdict).'),
+                    'field with every stopBy (the search starts at the child labelled so) and only when <= 1 child carries the field; rule / tree combinations whose estimated cost exceeds 1e10 atom evaluations are not started (a single evaluation cannot be interrupted); a per-rule work limit (400 ms) stops cubic rule/tree combinations (counted, no verdict).'),
         assumptions=['sources containing MISSING or zero-width nodes are skipped (statement)', 'evaluations with an ambiguous field carry no verdict (statement)'],
     ),
     'C04': dict(
@@ -95,7 +95,7 @@ PROPS = {
         floor={'quick': 1000000, 'thorough': 20000000},
         level_text='Millions of (rule, node) evaluations with shared variable names; environments compared exactly; held on the documents and permutations executed.',
         level_note=('Trusted: refsem/rule_env.rs (conjunction order atomic->composite->relational as documented, `any` first winning branch, relations nearest-first with every candidate starting from the '
-                    'incoming environment), Pattern atoms delegated to the real Pattern on a fresh env copy. nthChild.ofRule is restricted to kind/regex here (its capturing form is C05\'s known finding).'),
+                    'incoming environment), Pattern atoms delegated to the real Pattern on a fresh env copy -- which is why the clause "all occurrences of one variable are identical code" is judged separately by the repeated-hole and repeated-ellipsis oracles (one variable for two sub-trees / two bracketed lists, one of them replaced or truncated; verdict from token sequences only). Constrained global utilities are referenced on the node, behind relations and inside alternatives. nthChild.ofRule is restricted to kind/regex here (its capturing form is C05\'s known finding).'),
     ),
     'C01': dict(
         engines=[('vmon', 'c01'), ('py', 'c01_cli')],
@@ -181,7 +181,7 @@ PROPS = {
               'evaluations = files. Non-trivial = distinct files with >= 2 directives, >= 2 findings and at least one id list.'),
         floor={'quick': 3000, 'thorough': 100000},
         level_text='Thousands of generated files per quick run, every finding and every directive judged by the line model; held on the placements executed.',
-        level_note='Trusted: the line model (harness/src/mon/c14.rs::model, written from the statement), the four rules of each language firing exactly once per statement (asserted: the rules must load; unsuppressed findings are compared with multiplicity).',
+        level_note='Trusted: the line model (harness/src/mon/c14.rs::model, written from the statement), the six rules of each language (four statements, two of them reported by a twin rule as well) firing exactly once per statement, two- and three-line spellings enabled per language after checking that the rules match them (asserted: the rules must load; unsuppressed findings are compared with multiplicity).',
     ),
     'C16': dict(
         engines=[('py', 'c16')],
@@ -225,7 +225,7 @@ PROPS = {
               ' Additional workloads: a 600-800 (quick) / 1500-3000 (thorough) file tree with a slow consumer (recv failpoint or a stdout reader that starts late; the evidence reports the maximum number of items in flight) and files deleted while the walk is in progress (every other file keeps its records, a vanished file contributes all of its records or none).'),
         floor={'quick': 60, 'thorough': 2000},
         level_text='Every kind of per-file fault is injected in every tree and every run is checked both at the output and in the event log; schedules are sampled (the evidence lists how many distinct interleavings occurred), not enumerated.',
-        level_note='Trusted: the hook events (single write(2) per line, emitted around produce/send/recv), the single-file runs as definition of "each file alone". A ThreadSanitizer build of the CLI is part of the thorough plan (DESIGN.md §4).',
+        level_note='Trusted: the hook events (single write(2) per line, emitted around produce/send/recv), the single-file runs as definition of "each file alone". The thorough tier repeats the tree workload on a ThreadSanitizer build of the CLI (DESIGN.md §9.7).',
     ),
     'C18': dict(
         engines=[('py', 'c18')],
